@@ -30,6 +30,12 @@ CONFIGS = {
     'b-ar-2038': ('basic', 'arduino', 'tzdb,zonelist,zonedb', 2000, 2038),
     'x-py-2038': ('extended', 'python', 'tzdb,zonedb,zonelist', 2000, 2038),
     'b-py-2050': ('basic', 'python', 'zonelist,zonedb', 2000, 2050),
+    # further flag combinations (thorough tier)
+    'x-ar-strings': ('extended', 'arduino', 'zonedb,tzdb', 2000, 2050, ['--generate_zone_strings']),
+    'b-ar-strings': ('basic', 'arduino', 'zonedb', 2000, 2050, ['--generate_zone_strings']),
+    'b-ar-strict': ('basic', 'arduino', 'zonedb,tzdb,zonelist', 2000, 2050, ['--strict']),
+    'x-py-gran900': ('extended', 'python', 'zonedb,tzdb', 2000, 2050, ['--granularity', '900']),
+    'b-py-gran1': ('basic', 'python', 'zonedb,tzdb,zonelist', 1990, 2050, ['--until_at_granularity', '1', '--offset_granularity', '1']),
 }
 QUICK = ['x-ar-2050', 'b-ar-2050', 'x-py-2050', 'b-py-2038']
 
@@ -53,7 +59,8 @@ def perturbation(seed, index):
 
 
 def compile_once(repo, src, workdir, cfg, pert):
-    scope, language, actions, start, until = CONFIGS[cfg]
+    scope, language, actions, start, until = CONFIGS[cfg][:5]
+    extra = list(CONFIGS[cfg][5]) if len(CONFIGS[cfg]) > 5 else []
     cwd = workdir
     for d in range(pert['cwd_depth']):
         cwd = os.path.join(cwd, 'd%d' % d)
@@ -82,7 +89,7 @@ def compile_once(repo, src, workdir, cfg, pert):
         env['DETCOMPILE_SEED'] = str(pert['shim_seed'])
     cmd = [PY, os.path.join(repo, 'tools', 'tzcompiler.py'), '--input_dir', 'in', '--output_dir', 'out',
            '--tz_version', '2020d', '--action', actions, '--language', language, '--scope', scope,
-           '--start_year', str(start), '--until_year', str(until)]
+           '--start_year', str(start), '--until_year', str(until)] + extra
     old = os.umask(pert['umask'])
     try:
         p = subprocess.run(cmd, cwd=cwd, env=env, stdout=subprocess.PIPE, stderr=subprocess.PIPE, text=True,
@@ -146,7 +153,7 @@ def run(prop, tier, verif_seed):
     t0 = time.time()
     repo = B.REPO
     cfgs = QUICK if tier == 'quick' else sorted(CONFIGS)
-    nruns = 12 if tier == 'quick' else 64
+    nruns = 12 if tier == 'quick' else 160
     root = tempfile.mkdtemp(prefix='detcompile-')
     violations = 0
     exit_code = 0
